@@ -21,7 +21,6 @@ fn icmp6_case(ty: Option<u8>, n: usize) {
     let req = Icmpv6Packet::new(&buf[..n]).unwrap();
     let a6 = any_ip6();
     let mut s_set = HashSet::new();
-    s_set.insert(IpAddr::V4(any_ip4()));
     s_set.insert(IpAddr::V6(a6));
     let s_on: bool = kani::any();
     let mac_b: [u8; 6] = kani::any();
@@ -108,7 +107,7 @@ fn icmp6_case(ty: Option<u8>, n: usize) {
 //# tier: quick
 //# encodes: layer_4::icmpv6::repl
 //# encodes: layer_4::icmpv6::nd_ns_repl
-//# bounds: ICMPv6 message of 24 bytes, type 135 (neighbour solicitation), code and all other bytes symbolic; MAC symbolic; self-IP list absent or {a4,a6} symbolic
+//# bounds: ICMPv6 message of 24 bytes, type 135 (neighbour solicitation), code and all other bytes symbolic; MAC symbolic; self-IP list absent or one symbolic address of the relevant family
 //# out: longer messages (payload copy is uniform); solicitations carrying more than one option
 //# cover: neighbour advertisement sent
 //# cover: solicitation for foreign target ignored
@@ -124,7 +123,7 @@ fn c05_nd_ns_24() {
 //# tier: thorough
 //# encodes: layer_4::icmpv6::repl
 //# encodes: layer_4::icmpv6::nd_ns_repl
-//# bounds: ICMPv6 message of 32 bytes, type 135 (neighbour solicitation), code and all other bytes symbolic; MAC symbolic; self-IP list absent or {a4,a6} symbolic
+//# bounds: ICMPv6 message of 32 bytes, type 135 (neighbour solicitation), code and all other bytes symbolic; MAC symbolic; self-IP list absent or one symbolic address of the relevant family
 //# out: longer messages (payload copy is uniform); solicitations carrying more than one option
 //# cover: neighbour advertisement sent
 #[kani::proof]
@@ -138,7 +137,7 @@ fn c05_nd_ns_32() {
 //# tier: quick
 //# encodes: layer_4::icmpv6::repl
 //# encodes: layer_4::icmpv6::nd_ns_repl
-//# bounds: ICMPv6 message of 8 bytes, type 135 (neighbour solicitation), code and all other bytes symbolic; MAC symbolic; self-IP list absent or {a4,a6} symbolic
+//# bounds: ICMPv6 message of 8 bytes, type 135 (neighbour solicitation), code and all other bytes symbolic; MAC symbolic; self-IP list absent or one symbolic address of the relevant family
 //# out: longer messages (payload copy is uniform); solicitations carrying more than one option
 //# cover: truncated solicitation ignored
 #[kani::proof]
@@ -152,7 +151,7 @@ fn c01_nd_ns_short_8() {
 //# tier: thorough
 //# encodes: layer_4::icmpv6::repl
 //# encodes: layer_4::icmpv6::nd_ns_repl
-//# bounds: ICMPv6 message of 23 bytes, type 135 (neighbour solicitation), code and all other bytes symbolic; MAC symbolic; self-IP list absent or {a4,a6} symbolic
+//# bounds: ICMPv6 message of 23 bytes, type 135 (neighbour solicitation), code and all other bytes symbolic; MAC symbolic; self-IP list absent or one symbolic address of the relevant family
 //# out: longer messages (payload copy is uniform); solicitations carrying more than one option
 //# cover: truncated solicitation ignored
 #[kani::proof]
@@ -166,7 +165,7 @@ fn c01_nd_ns_short_23() {
 //# tier: quick
 //# encodes: layer_4::icmpv6::repl
 //# encodes: layer_4::icmpv6::nd_ns_repl
-//# bounds: ICMPv6 message of 12 bytes, type 128 (echo request), code and all other bytes symbolic; MAC symbolic; self-IP list absent or {a4,a6} symbolic
+//# bounds: ICMPv6 message of 12 bytes, type 128 (echo request), code and all other bytes symbolic; MAC symbolic; self-IP list absent or one symbolic address of the relevant family
 //# out: longer messages (payload copy is uniform); solicitations carrying more than one option
 //# cover: echo answered
 //# cover: non-zero code ignored
@@ -181,7 +180,7 @@ fn c05_icmp6_echo_12() {
 //# tier: thorough
 //# encodes: layer_4::icmpv6::repl
 //# encodes: layer_4::icmpv6::nd_ns_repl
-//# bounds: ICMPv6 message of 4 bytes, type 128 (echo request), code and all other bytes symbolic; MAC symbolic; self-IP list absent or {a4,a6} symbolic
+//# bounds: ICMPv6 message of 4 bytes, type 128 (echo request), code and all other bytes symbolic; MAC symbolic; self-IP list absent or one symbolic address of the relevant family
 //# out: longer messages (payload copy is uniform); solicitations carrying more than one option
 //# cover: echo answered
 #[kani::proof]
@@ -195,7 +194,7 @@ fn c05_icmp6_echo_4() {
 //# tier: thorough
 //# encodes: layer_4::icmpv6::repl
 //# encodes: layer_4::icmpv6::nd_ns_repl
-//# bounds: ICMPv6 message of 15 bytes, type 128 (echo request), code and all other bytes symbolic; MAC symbolic; self-IP list absent or {a4,a6} symbolic
+//# bounds: ICMPv6 message of 15 bytes, type 128 (echo request), code and all other bytes symbolic; MAC symbolic; self-IP list absent or one symbolic address of the relevant family
 //# out: longer messages (payload copy is uniform); solicitations carrying more than one option
 //# cover: echo answered
 #[kani::proof]
@@ -209,7 +208,7 @@ fn c05_icmp6_echo_15() {
 //# tier: quick
 //# encodes: layer_4::icmpv6::repl
 //# encodes: layer_4::icmpv6::nd_ns_repl
-//# bounds: ICMPv6 message of 8 bytes, type symbolic over all values except 128 and 135, code and all other bytes symbolic; MAC symbolic; self-IP list absent or {a4,a6} symbolic
+//# bounds: ICMPv6 message of 8 bytes, type symbolic over all values except 128 and 135, code and all other bytes symbolic; MAC symbolic; self-IP list absent or one symbolic address of the relevant family
 //# out: longer messages (payload copy is uniform); solicitations carrying more than one option
 //# cover: C12 echo reply ignored
 //# cover: C12 neighbour advertisement ignored
@@ -224,7 +223,7 @@ fn c05_icmp6_other_8() {
 //# tier: thorough
 //# encodes: layer_4::icmpv6::repl
 //# encodes: layer_4::icmpv6::nd_ns_repl
-//# bounds: ICMPv6 message of 32 bytes, type symbolic over all values except 128 and 135, code and all other bytes symbolic; MAC symbolic; self-IP list absent or {a4,a6} symbolic
+//# bounds: ICMPv6 message of 32 bytes, type symbolic over all values except 128 and 135, code and all other bytes symbolic; MAC symbolic; self-IP list absent or one symbolic address of the relevant family
 //# out: longer messages (payload copy is uniform); solicitations carrying more than one option
 //# cover: C12 neighbour advertisement ignored
 #[kani::proof]
